@@ -21,6 +21,7 @@ from common import Ctx
 PROP = "C16"
 LEAN_MODULE = "TsProofs.Properties.C16"
 THEOREMS = [
+    "Ts.C16.C16_subdivide_partition",
     "Ts.C16.C16_torch_chunk_partition",
     "Ts.C16.C16_chunk_partition",
     "Ts.C16.C16_chunk_bytes_concat",
